@@ -15,6 +15,7 @@ from argparse import (
     ArgumentTypeError,
     HelpFormatter,
 )
+import typing
 from ast import literal_eval
 from inspect import Parameter, getmembers, isfunction, signature
 from shutil import get_terminal_size
@@ -36,6 +37,7 @@ from typing import (
 from typing_extensions import Unpack  # noqa: TCH002
 
 from ..exceptions import HelpRequested, ParserError, SubParsersNotInitialized
+from ..internals import types as _types
 from ..internals.constants import CMD
 from ..internals.helpers import get_first_doc_line, resolve_dotted_path
 from ..internals.types import (
@@ -243,6 +245,7 @@ class ControlParser(ArgumentParser):
         subparser = self._commands.add_parser(**subparser_kwargs)
         if prop.fset is not None:
             _, param = signature(prop.fset).parameters.values()
+            param = _resolve_annotation(param, prop.fset)
             setter_arg_help = (
                 f"If provided: {get_first_doc_line(prop.fset)} "
                 f"If omitted: {getter_help}"
@@ -405,6 +408,7 @@ class ControlParser(ArgumentParser):
         """
         for param in signature(function).parameters.values():
             if param.name not in omit:
+                param = _resolve_annotation(param, function)
                 # TODO: Look into parsing docstrings properly to try and extract
                 #       argument help text. For now, the argument help just
                 #       shows the type it will be converted to.
@@ -443,8 +447,33 @@ def _get_arg_type_wrapper(cls: Type[Any]) -> Callable[[Any], Any]:
 
     # Copy the name of the class to maintain useful help messages when
     # incorrect arguments are passed.
-    wrapper.__name__ = cls.__name__
+    wrapper.__name__ = getattr(cls, "__name__", repr(cls))
     return wrapper
+
+
+def _resolve_annotation(
+    parameter: Parameter,
+    function: Callable[..., Any],
+) -> Parameter:
+    """
+    Evaluates a postponed (i.e. string) annotation of `parameter`.
+
+    The names are looked up in the module of the `function` the `parameter`
+    belongs to and among the custom types of this package. If that fails, the
+    `parameter` is returned unchanged.
+    """
+    if not isinstance(parameter.annotation, str):
+        return parameter
+    namespace = {
+        **vars(typing),
+        **vars(_types),
+        **getattr(function, "__globals__", {}),
+    }
+    try:
+        annotation = eval(parameter.annotation, namespace)  # noqa: S307, PGH001
+    except Exception:  # noqa: BLE001
+        return parameter
+    return parameter.replace(annotation=annotation)
 
 
 def _get_type_from_annotation(annotation: Any) -> Callable[[Any], Any]:
